@@ -13,7 +13,8 @@ THEOREMS = ['C02_bookkeeping', 'C02_lengths']
 EST_THEOREMS = ['C02_shellVolume', 'C02_shellVolume_le', 'C02_evidence', 'C02_weights', 'C02_kish', 'C02_shellTerm']
 TIE_THEOREMS = ['C02_tie_formulas', 'C02_tie_structure', 'C02_tie_view']
 MODULE = [('NautilusVerif.Properties.C02', THEOREMS), ('NautilusVerif.Properties.CoreRun', ['Run_phase', 'C02_run']), ('NautilusVerif.Properties.C02Est', EST_THEOREMS),
-          ('NautilusVerif.Properties.C02EstTie', TIE_THEOREMS)]
+          ('NautilusVerif.Properties.C02EstTie', TIE_THEOREMS),
+          ('NautilusVerif.Properties.CoreTie', ['Core_tie_updateShellInfo', 'Core_tie_posterior', 'Core_tie_addSamples'])]
 FILES = ['nautilus/sampler.py']
 INVARIANTS = ['aligned', 'counts', 'shape']
 
@@ -23,7 +24,7 @@ def run(chk):
     import gen_c02
     text2, notes2 = gen_c02.generate(common.REPO)
     chk.extra['translator'] = notes2
-    chk.prove(MODULE, None, {'NautilusVerif/Generated/C02.lean': text2})
+    chk.prove(MODULE, None, {'NautilusVerif/Generated/CoreSrc.lean': __import__('gen_core').generate(common.REPO)[0], 'NautilusVerif/Generated/C02.lean': text2})
     if chk.tier == 'thorough':
         chk.leanchecker([m for m, _ in MODULE])
     results = corechecks.run_all(chk.tier, chk.seed)
